@@ -244,14 +244,38 @@ func superviseWorker(r *ev.Run, cfg props.Cfg, w, W int) {
 		if killed {
 			r.Inconclusive(fmt.Sprintf("watchdog: decoder %s made no progress for 10 minutes on case %d", dec, counter))
 		} else {
-			fatal := firstFatal(stderr.String())
-			site := siteOf(stderr.String())
-			r.Violation("C13/fatal/"+classify(fatal)+"/"+site, fmt.Sprintf("decoding killed the process: %s (decoder %s, family %s, %d input bytes)", fatal, dec, fam, len(input)),
-				finding{Sig: "fatal", What: fatal, Decoder: dec, Family: fam, Input: hexTrunc(input), Counter: counter, Stack: firstLines(stderr.String(), 40)})
+			// Decoders are stateless: the death must reproduce with this input alone in a fresh
+			// child. Otherwise it was environmental (e.g. thread creation failing under the
+			// address-space limit after several legal multi-GiB allocations) and proves nothing.
+			isoErr, isoStderr := isolate(cfg, dec, input)
+			if isoErr == nil {
+				r.Inconclusive(fmt.Sprintf("a child died (%s) but decoder %s survives the same input alone", firstLines(firstFatal(stderr.String()), 1), dec))
+			} else {
+				fatal := firstFatal(isoStderr)
+				site := siteOf(isoStderr)
+				r.Violation("C13/fatal/"+classify(fatal)+"/"+site, fmt.Sprintf("decoding killed the process: %s (decoder %s, family %s, %d input bytes; reproduced in an isolated child)", fatal, dec, fam, len(input)),
+					finding{Sig: "fatal", What: fatal, Decoder: dec, Family: fam, Input: hexTrunc(input), Counter: counter, Stack: firstLines(isoStderr, 40)})
+			}
 		}
 		resume = fmt.Sprintf("%s:%d", dec, counter)
 	}
 	r.Inconclusive(fmt.Sprintf("worker %d: too many child restarts", w))
+}
+
+// isolate runs one decode call in a fresh child; returns the child's error and stderr.
+func isolate(cfg props.Cfg, dec string, input []byte) (error, string) {
+	tmp := filepath.Join(ev.Root(), "bin", fmt.Sprintf(".c13-iso-%d-%d", os.Getpid(), time.Now().UnixNano()))
+	_ = os.WriteFile(tmp, []byte(dec+"\n"+hex.EncodeToString(input)), 0o644)
+	defer os.Remove(tmp)
+	cmd := exec.Command(cfg.Self, "-prop", "C13", "-child", "one:"+tmp)
+	cmd.Env = append(os.Environ(), "GOTRACEBACK=single")
+	var stderr bytes.Buffer
+	cmd.Stderr = &stderr
+	out, err := cmd.Output()
+	if err == nil && bytes.Contains(out, []byte(`{"sig"`)) {
+		return fmt.Errorf("panic recovered"), string(out)
+	}
+	return err, stderr.String()
 }
 
 type limitedWriter struct {
